@@ -10,6 +10,8 @@ From Bnum Require Import Base Prim.
 From Bnum.Model Require Import Digit Core Shift AddSub Mul Div Bits RadixOut.
 From Bnum.Proofs Require Import RadixSpec RadixOutDeps RadixOut.
 From Bnum.Proofs Require Import DischargeRadix.
+From Bnum.Model Require Import Parse.
+From Bnum.Proofs Require Import RoundTrip.
 
 (* the specification determines the output: a value has exactly one canonical digit sequence *)
 Theorem C11_canonical_unique : forall r x a b,
@@ -120,6 +122,53 @@ Proof.
 Qed.
 Print Assumptions C11_round_trip_istr.
 
+(* ---- the round trip closed over the REAL parsers of property C10 (Model/Parse.v): the model parsers
+        meet the four parser specifications (C10's theorems, Proofs/RoundTrip.v) ... ---- *)
+Theorem C11_parse_le_real : forall dbg w n, 0 < w -> w mod 8 = 0 -> (0 < n)%nat ->
+  parse_le_spec (fun a => POk (Some a)) w n (U_from_radix_le dbg w n).
+Proof. exact parse_le_real. Qed.
+Print Assumptions C11_parse_le_real.
+Theorem C11_parse_be_real : forall dbg w n, 0 < w -> w mod 8 = 0 -> (0 < n)%nat ->
+  parse_be_spec (fun a => POk (Some a)) w n (U_from_radix_be dbg w n).
+Proof. exact parse_be_real. Qed.
+Print Assumptions C11_parse_be_real.
+Theorem C11_parse_str_real : forall dbg w n, 0 < w -> w mod 8 = 0 -> (0 < n)%nat ->
+  parse_str_spec (@POk (list Z)) w n (U_from_str_radix dbg w n).
+Proof. exact parse_str_real. Qed.
+Print Assumptions C11_parse_str_real.
+Theorem C11_parse_istr_real : forall dbg w n, 0 < w -> w mod 8 = 0 -> (0 < n)%nat ->
+  parse_istr_spec (@POk (list Z)) w n (I_from_str_radix dbg w n).
+Proof. exact parse_istr_real. Qed.
+Print Assumptions C11_parse_istr_real.
+
+(* ---- ... hence, with no premise: for both build modes, every digit width w that is a multiple of 8
+        (side conditions of both developments: 8 <= w for the output, w mod 8 = 0 for the parser),
+        every digit count n >= 1, every well-formed value and every radix in range, parsing the
+        output with the same radix returns the original value ---- *)
+Theorem C11_round_trip_le_closed : forall dbg w n a r,
+  8 <= w -> w mod 8 = 0 -> (0 < n)%nat -> wf w n a -> 2 <= r <= 256 ->
+  exists ds, U_to_radix_le w a r = Some (Ret ds) /\ U_from_radix_le dbg w n ds r = POk (Some a).
+Proof. exact round_trip_le_closed. Qed.
+Print Assumptions C11_round_trip_le_closed.
+
+Theorem C11_round_trip_be_closed : forall dbg w n a r,
+  8 <= w -> w mod 8 = 0 -> (0 < n)%nat -> wf w n a -> 2 <= r <= 256 ->
+  exists bs, U_to_radix_be w a r = Some (Ret bs) /\ U_from_radix_be dbg w n bs r = POk (Some a).
+Proof. exact round_trip_be_closed. Qed.
+Print Assumptions C11_round_trip_be_closed.
+
+Theorem C11_round_trip_str_closed : forall dbg w n a r,
+  8 <= w -> w mod 8 = 0 -> (0 < n)%nat -> wf w n a -> 2 <= r <= 36 ->
+  exists s, U_to_str_radix w a r = Some (Ret s) /\ U_from_str_radix dbg w n s r = POk a.
+Proof. exact round_trip_str_closed. Qed.
+Print Assumptions C11_round_trip_str_closed.
+
+Theorem C11_round_trip_istr_closed : forall dbg w n a r,
+  8 <= w -> w mod 8 = 0 -> (0 < n)%nat -> wf w n a -> 2 <= r <= 36 ->
+  exists s, I_to_str_radix w a r = Some (Ret s) /\ I_from_str_radix dbg w n s r = POk a.
+Proof. exact round_trip_istr_closed. Qed.
+Print Assumptions C11_round_trip_istr_closed.
+
 (* the hypotheses are satisfiable / the statements are not vacuous *)
 Example C11_ex_hyps : 8 <= 8 /\ wf 8 2 [255; 1] /\ 2 <= 10 <= 36 /\ (0 < 2)%nat.
 Proof. repeat split; try lia; repeat constructor; unfold digit_ok, B; cbn; lia. Qed.
@@ -139,3 +188,10 @@ Proof. exact parse_le_spec_sat. Qed.
 Example C11_ex_parse_str_spec : forall w n, 0 < w ->
   parse_str_spec (@Some (list Z)) w n (fun s r => Some (digits_of w n (horner_le r (rev (map unascii s))))).
 Proof. exact parse_str_spec_sat. Qed.
+(* the closed round trip on instances: "511" and "-2" parse back to the arrays they were printed from *)
+Example C11_ex_round_trip_str : U_from_str_radix true 8 2 [53; 49; 49] 10 = POk [255; 1].
+Proof. vm_compute. reflexivity. Qed.
+Example C11_ex_round_trip_istr : I_from_str_radix true 8 2 [45; 50] 16 = POk [254; 255].
+Proof. vm_compute. reflexivity. Qed.
+Example C11_ex_round_trip_le : U_from_radix_le true 8 2 [7; 7; 7] 8 = POk (Some [255; 1]).
+Proof. vm_compute. reflexivity. Qed.
